@@ -52,6 +52,7 @@ def snapshot(t):
         s.append([t.getFormat(r) for r in t.getRankIds()])
         s.append(t.isMutable())
         s.append(t.getName())
+        s.append([(r.getAttrs().getShape(), r.getAttrs().getEstimatedShape()) for r in t.ranks])      # what the ranks *record*, not what getShape() derives
     else:
         s.append(root.getActive())
         s.append(pv(root.getDefault()) if not callable(pv(root.getDefault())) else "fiber")
@@ -166,7 +167,14 @@ def readonly(sk, *xs):
     what, d, S = sk["what"], sk["depth"], sk["S"]
     f, pos, _ = build_tree(sk["tree"], xs)
     g, pos, _ = build_tree(sk["tree2"], xs, pos)
-    t = Tensor.fromFiber(rank_ids_for(d), f, shape=[S] * d)
+    if sk.get("grown"):
+        # a tensor created empty without a shape and filled point by point: its rank shapes are unknown and have to be estimated on demand
+        t = Tensor(rank_ids=rank_ids_for(d))
+        for pt, v in content(f):
+            r_ = t.getPayloadRef(*pt)
+            r_ <<= v
+    else:
+        t = Tensor.fromFiber(rank_ids_for(d), f, shape=[S] * d)
     u = Tensor.fromFiber(rank_ids_for(d), g, shape=[S] * d)
     q = list(xs[pos:pos + d])
     bt, bu = snapshot(t), snapshot(u)
@@ -207,6 +215,14 @@ def readonly(sk, *xs):
         for _ in a.iterShape(): pass
     if snapshot(t) != bt or snapshot(u) != bu:
         return fail("a read-only %s operation changed a tree, a rank list or an attribute" % what)
+    if sk.get("grown"):
+        # ... and nothing was remembered: after the tensor grows the derived shape follows
+        far = [S + 3 + i for i in range(d)]
+        r_ = t.getPayloadRef(*far)
+        r_ <<= 1
+        sh = t.getShape()
+        if any(sh[i] < far[i] + 1 for i in range(d)):
+            return fail("after growing past %r the tensor still reports shape %r (a read-only query left a remembered estimate behind)" % (far, sh))
     return True
 
 
@@ -278,4 +294,7 @@ def obligations(tier):
                 vals = [n for n in xn + yn if n not in c1 + c2]
                 pre += bound_pre(vals, 0, 2)
             obs.append(Ob("ro/%s/%s-%s" % (what, _nm(t1), _nm(t2)), "readonly", dict(what=what, tree=t1, tree2=t2, depth=2, S=S), xn + yn + ["q0", "q1"], pre))
+            if what in ("queries", "dict", "iterators") and t1 == [1, 1]:
+                obs.append(Ob("ro-grown/%s/%s-%s" % (what, _nm(t1), _nm(t2)), "readonly", dict(what=what, tree=t1, tree2=t2, depth=2, S=S, grown=True),
+                              xn + yn + ["q0", "q1"], pre))
     return obs
